@@ -86,6 +86,9 @@ def eval_and_deriv(ctx, bz, rng, reps):
             u = rng.random(R)
             beta = rng.uniform(0, 1, R)
             beta = np.where(u < 0.1, 0.0, np.where(u < 0.2, 1.0, np.where(u < 0.4, rng.uniform(-1, 2, R), beta)))
+            # times a hair inside / outside either end of the segment (1e-12 .. 1e-4 of T): still the polynomial, not the end value
+            hair = O.loguniform(rng, 1e-12, 1e-4, R) * rng.choice([-1.0, 1.0], R)
+            beta = np.where((u >= 0.4) & (u < 0.47), 1.0 + hair, np.where((u >= 0.47) & (u < 0.5), hair, beta))
             tn = beta * Tn
             tn = np.where(u < 0.2, np.where(u < 0.1, 0.0, Tn), tn)
             vals, _ = ev(Pn, Tn, tn)
